@@ -420,12 +420,12 @@ theorem OVF_eq : OVF = 2 ^ 2098 := rfl
 /-- largest finite magnitude `(2^53 - 1)·2^971`, in units -/
 theorem maxfin_eq : (2 ^ 53 - 1) * 2 ^ 2045 = OVF - 2 * 2 ^ 2044 := by
   rw [OVF_eq, Nat.sub_mul, ← Nat.pow_add, Nat.one_mul]
-  rw [show (2 : Nat) * 2 ^ 2044 = 2 ^ 2045 from (Nat.pow_succ).symm ▸ Nat.mul_comm _ _]
 
 theorem nearestEven_ovf_iff (num den k : Nat) (hd : 0 < den) (hk : IsNearestEven num den k) :
     OVF ≤ k ↔ (OVF - 2 ^ 2044) * den ≤ num := by
   have hgap := no_grid_between (2 ^ 53 - 1) 2045 k (Or.inr (by decide)) hk.grid
-  have e1 : (2 ^ 53 - 1 + 1) * 2 ^ 2045 = OVF := by rw [OVF_eq, ← Nat.pow_add]
+  have e1 : (2 ^ 53 - 1 + 1) * 2 ^ 2045 = OVF := by
+    rw [show (2 ^ 53 - 1 + 1 : Nat) = 2 ^ 53 from by decide, OVF_eq, ← Nat.pow_add]
   rw [e1, maxfin_eq] at hgap
   have hM : GridU (OVF - 2 * 2 ^ 2044) := maxfin_eq ▸ gridU_lo (2 ^ 53 - 1) 2045 (by decide)
   have hO : GridU OVF := ⟨1, 2098, by decide, by rw [OVF_eq, Nat.one_mul]⟩
@@ -478,5 +478,88 @@ theorem roundUnits_inf_iff (neg : Bool) (num den : Nat) (hd : 0 < den) :
     · cases h
   · intro h
     rw [if_pos h]
+
+/-! ## underflow to zero, and decimal → double -/
+
+theorem OVF_pos : 0 < OVF := by rw [OVF_eq]; exact Nat.two_pow_pos _
+
+/-- anything below half a unit rounds to zero -/
+theorem roundUnits_tiny (neg : Bool) (num den : Nat) (h : 2 * num < den) : roundUnits neg num den = fin neg 0 := by
+  have hd : 0 < den := by omega
+  have hk : IsNearestEven num den 0 := by
+    have herr : ∀ g, g ≠ 0 → err num den 0 < err num den g := by
+      intro g hg
+      have := Nat.mul_le_mul_right den (show 1 ≤ g by omega)
+      unfold err absDiff
+      omega
+    refine ⟨⟨0, 0, by decide, by simp⟩, ?_, ?_⟩
+    · intro g _
+      by_cases hg : g = 0
+      · subst hg; exact Nat.le_refl _
+      · exact Nat.le_of_lt (herr g hg)
+    · intro g _ hne he
+      have := herr g hne
+      omega
+  rw [roundUnits_eq, ← (nearestEven_iff num den 0 hd).mp hk, if_neg (by have := OVF_pos; omega)]
+
+theorem S_eq : S = 2 ^ 1074 := rfl
+
+theorem ofDecimal_eq_roundUnits (neg : Bool) (d : Nat) (e10 : Int) :
+    ofDecimal neg d e10 = roundUnits neg (d * 10 ^ e10.toNat * S) (10 ^ (-e10).toNat) := by
+  have hden : 0 < 10 ^ (-e10).toNat := Nat.pow_pos (by decide)
+  unfold ofDecimal
+  split
+  · rename_i h
+    have : d = 0 := by simpa using h
+    subst this
+    have := roundUnits_exact neg 0 _ hden onGrid_zero
+    rw [Nat.zero_mul] at this
+    rw [Nat.zero_mul, Nat.zero_mul, this]
+  · rename_i hd0
+    have hd1 : 1 ≤ d := by
+      have : d ≠ 0 := by simpa using hd0
+      omega
+    simp only []
+    split
+    · -- overflow clamp
+      rename_i hbig
+      symm
+      have e0 : (-e10).toNat = 0 := by omega
+      rw [e0, roundUnits_inf_iff neg _ _ (by decide)]
+      have h1 : 10 ^ 401 ≤ 10 ^ e10.toNat := Nat.pow_le_pow_right (by decide) (by omega)
+      have h2 : 2 ^ 1024 ≤ 10 ^ 401 := by decide
+      have h3 : 2 ^ 1024 ≤ d * 10 ^ e10.toNat := by
+        have := Nat.mul_le_mul hd1 h1
+        omega
+      have h4 := Nat.mul_le_mul_right S h3
+      have h5 : 2 ^ 1024 * S = OVF := by rw [S_eq, OVF_eq, ← Nat.pow_add]
+      simp only [Nat.pow_zero, Nat.mul_one]
+      omega
+    · split
+      · -- underflow clamp
+        rename_i hnb hsmall
+        symm
+        have e0 : e10.toNat = 0 := by omega
+        rw [e0, Nat.pow_zero, Nat.mul_one]
+        apply roundUnits_tiny
+        have hdlt : d < 10 ^ (natToStr d).length :=
+          (Nat.length_toDigits_le_iff (b := 10) (n := d) (by decide) Nat.length_toDigits_pos).mp (Nat.le_refl _)
+        generalize (natToStr d).length = nd at *
+        have hn : nd + 401 ≤ (-e10).toNat := by omega
+        have h1 : 10 ^ (nd + 401) ≤ 10 ^ (-e10).toNat := Nat.pow_le_pow_right (by decide) hn
+        have h2 : 2 * S < 10 ^ 401 := by rw [S_eq]; decide
+        have h3 : d * (2 * S) < 10 ^ nd * 10 ^ 401 := by
+          calc d * (2 * S) < 10 ^ nd * (2 * S) := Nat.mul_lt_mul_of_pos_right hdlt (by rw [S_eq]; decide)
+            _ ≤ 10 ^ nd * 10 ^ 401 := Nat.mul_le_mul_left _ (Nat.le_of_lt h2)
+        rw [← Nat.pow_add] at h3
+        have e : 2 * (d * S) = d * (2 * S) := by grind
+        omega
+      · split
+        · rename_i h
+          have e0 : (-e10).toNat = 0 := by omega
+          rw [e0, Nat.pow_zero]
+        · rename_i h
+          have e0 : e10.toNat = 0 := by omega
+          rw [e0, Nat.pow_zero, Nat.mul_one]
 
 end JL.Lemmas.IEEE
